@@ -3,6 +3,19 @@
 ZSTD = "zstd crate: decompress(compress(x)) = x and context-history independence (exercised, not proved)"
 
 PROPS = {
+    "C07": {
+        "level": "proof",
+        "assumptions": [
+            "Model/Range.lean mirrors decompressor.rs get_contig_range / get_contig_length / reconstruct_contig / "
+            "reverse_complement_segment; tied by running the model on the descriptors and decoded segments of every contig "
+            "of generated archives and comparing with the real answers for every query issued",
+            "well-formedness of the reader's view (raw_length = decoded segment length, later segments at least k long) is a "
+            "hypothesis of the theorems; it is observed (counter wf_holds) on every contig of every generated archive",
+            "segment decoding (get_segment: ZSTD, LZ-diff, pack splitting) is outside this property (C09/C12/C13)",
+        ],
+        "trusted": [ZSTD],
+        "timeout": {"quick": 600, "thorough": 3000},
+    },
     "C20": {
         "level": "proof",
         "assumptions": [
